@@ -292,8 +292,13 @@ func (neq Neq) Build(builder Builder) {
 
 	switch neq.Value.(type) {
 	case []string, []int, []int32, []int64, []uint, []uint32, []uint64, []interface{}:
-		builder.WriteString(" NOT IN (")
 		rv := reflect.ValueOf(neq.Value)
+		if rv.Len() == 0 {
+			// as IN.NegationBuild does for no values (Eq renders IN (NULL))
+			builder.WriteString(" IS NOT NULL")
+			return
+		}
+		builder.WriteString(" NOT IN (")
 		for i := 0; i < rv.Len(); i++ {
 			if i > 0 {
 				builder.WriteByte(',')
